@@ -47,7 +47,7 @@ def mc_avel(ctx):
 
 def prog_cfg(unit):
     """TLC constants of one register-program trace: the unit is the vector type, e.g. 16x8u"""
-    m = re.match(r'(\d+)x(\d+)([ui])$', unit)
+    m = re.match(r'(\d+)x(\d+)([uif])$', unit)
     n, w, k = int(m.group(1)), int(m.group(2)) // 8, m.group(3)
     return ('SPECIFICATION TraceSpec\nCONSTANTS N = %d\n  W = %d\n  Kind = "%s"\n  LaneDom = {0}\n'
             '  VRegs = {"v0", "v1", "v2", "v3"}\n  KRegs = {"k0", "k1", "k2"}\n  MemSize = %d\n  MaxDepth = 0\n'
@@ -57,7 +57,7 @@ def prog_cfg(unit):
 def prog_traces(ctx):
     """code -> TLC for the composed machine: register programs over live vectors, masks, memory and the rounding
     mode (harness/drv_prog.cpp) replayed as behaviours of spec/Avel.tla by spec/TraceAvel.tla"""
-    n = runner.ordered_traces(ctx, 'drv_prog.cpp', 'prog', INT_GROUPS, 'TraceAvel', '.prog', cfg_for=prog_cfg)
+    n = runner.ordered_traces(ctx, 'drv_prog.cpp', 'prog', INT_GROUPS, 'TraceAvel', '.prog', cfg_for=prog_cfg)      # integer and float vector types
     ctx.notes.append('composed machine (Avel.tla / TraceAvel.tla): %d distinct register-program traces validated' % n)
 
 
